@@ -227,7 +227,15 @@ CLAIMED = {
                   "bidirected cone: every topological listing of its result satisfies the whole statement) + a verified checker "
                   "(`supergatesOK` sound AND complete w.r.t. the statement) evaluated on the implementation's actual output + "
                   "algorithm-model vs implementation correspondence + independent Python oracle and super-circuit simulation",
-        text="Proof: `algo_spec_fixed` — for every lint-clean, blackbox-free, acyclic circuit with fan-in <= 2 (what "
+        text="Proof: `run_spec` — the whole function (limit_fanin(c, 2), then the algorithm) on every lint-clean, blackbox-free, "
+             "acyclic circuit of ANY fan-in succeeds, works on an io-identical refinement of the argument, and every topological "
+             "listing of its result satisfies the statement; `topo_exists_iff` — the dependency-graph cycle test is exact "
+             "(no NetworkXUnfeasible iff a topological listing exists); `super_fill_equiv_fixed` — construct_supercircuit=True "
+             "(modelled in CG/SuperCircuit.lean, compared with the real function every run): for single-output circuits "
+             "filling every supergate blackbox with the supergate of the returned map succeeds and gives a circuit with the "
+             "same io and the same consistent valuations on inputs and output, under the exact freshness condition "
+             "`SuperNamesOK` (the weaker guess is refuted by three closed counterexamples, one of them known finding K53). "
+             "`algo_spec_fixed` — for every lint-clean, blackbox-free, acyclic circuit with fan-in <= 2 (what "
              "limit_fanin(c, 2) returns) without stray `bb_output`-typed nodes in the output cones, whenever the minimal "
              "supergates have distinct heads, EVERY topological listing of what the modelled algorithm returns satisfies the "
              "statement: single-output sub-circuits with exactly the circuit's wiring, inputs with pairwise disjoint transitive "
@@ -239,9 +247,10 @@ CLAIMED = {
              "definition) is compared with the real function on every generated circuit (same set of supergates and heads, "
              "same NetworkXUnfeasible verdict). PARTIAL: the order among independent supergates depends on id()-hashed sets "
              "and is quantified over (every topological listing), not reproduced; networkx's immediate_dominators is trusted "
-             "to implement its definition; the super-circuit (construct_supercircuit=True) is search-only.",
+             "to implement its definition.",
         note=TRUST + " Known finding K28 (NetworkXUnfeasible on some multi-output circuits: no topological listing exists, "
-             "so `algo_spec_fixed` is vacuous there and says so).",
+             "so `algo_spec_fixed` is vacuous there and says so) and K53 (spliced names `sg_<h>_<n>` can collide when filling "
+             "the super-circuit back).",
         ref="§4 C17"),
     "C19": dict(
         technique="Lean 4 theorems (soundness of a flow-sensitive ownership/alias analysis w.r.t. a cell-and-version heap "
